@@ -11,12 +11,13 @@ CONSTANTS
   Prog <- MC_Prog
   KeyRank <- MC_KeyRank
   Root <- MC_Root
-  CandU <- MC_CandU_edge
+  CandU <- MC_CandU_edgeq
   AbortSets <- MC_AbortSets_one
   MaxTicks = 3
   MaxCands = 2
   MaxCandsA = 1
-  MaxAborts = 1
+  MaxAborts = 0
+  MaxFails = 0
   MaxJumps = 0
   PreNames = {"hub"}
   Export = TRUE
